@@ -146,12 +146,19 @@ func (l *Ledger) leaf(j *simrun.Job, base, token, param string, isFileType bool)
 		}
 		target := filepath.Base(real)
 		if h%14 == 1 {
-			mid := p + ".l2"
-			if err := os.Symlink(target, mid); err != nil {
+			// the middle link sits one directory further down, so that
+			// each hop has to be resolved relative to its own directory
+			sub := p + ".d"
+			if err := os.MkdirAll(sub, 0o755); err != nil {
+				return nil, err
+			}
+			l.add(&Entry{Path: sub, IsDir: true, Written: true, Kind: "link-target", Token: token, Job: j, Param: param})
+			mid := filepath.Join(sub, "l2")
+			if err := os.Symlink(filepath.Join("..", target), mid); err != nil {
 				return nil, err
 			}
 			l.add(&Entry{Path: mid, IsLink: true, Content: ContentFor(token), Written: true, Kind: "link-target", Token: token, Job: j, Param: param})
-			target = filepath.Base(mid)
+			target = filepath.Join(filepath.Base(sub), "l2")
 		}
 		if err := os.Symlink(target, p); err != nil {
 			return nil, err
